@@ -35,7 +35,27 @@ def _question(g):
     return '::'.join(w.split('::')[-2:]) if '::' in w else w
 
 
-def gate_sets(ctx, cfg, path, with_question=False):
+def _region_expressible(g):
+    """can the acceptance-region rule (RF-V, difference bounds) see what this condition establishes about counts?  An order comparison
+    either way, an equality that has to hold (`a == b` true, `a != b` false).  Not: an equality that must *fail* (`any(|i| i == L)` refused -
+    a disequality is no difference bound), a test whose outcome is not known."""
+    if g.kind == 'cmp':
+        if g.what in ('Lt', 'Le', 'Gt', 'Ge'):
+            return g.truth is not None
+        if g.what == 'Eq':
+            return g.truth is True
+        if g.what == 'Ne':
+            return g.truth is False
+    return False
+
+
+def _disequality(g):
+    """an equality of two machine integers that must fail for the function to go on (`if i == L { refuse }`, `any(|i| i == L)` refused):
+    a condition on counts / positions that no difference bound expresses"""
+    return g.kind == 'cmp' and ((g.what == 'Eq' and g.truth is False) or (g.what == 'Ne' and g.truth is True))
+
+
+def gate_sets(ctx, cfg, path, with_question=False, with_expr=False):
     prog, ga = ctx.prog(cfg), ctx.gates(cfg)
     b = prog.bodies[path]
     out = set()
@@ -56,7 +76,10 @@ def gate_sets(ctx, cfg, path, with_question=False):
                     # computed (`(len - 80) / 32` vs checked_sub chains) and would make the fingerprint depend on form
                     rs.add(b.local_name(st[1]) or 'p%d' % st[1])
             if rs:
-                out.add((_question(g), frozenset(rs)) if with_question else frozenset(rs))
+                if with_expr:
+                    out.add((_question(g), frozenset(rs), 'diseq' if _disequality(g) else _region_expressible(g)))
+                else:
+                    out.add((_question(g), frozenset(rs)) if with_question else frozenset(rs))
     return out
 
 
@@ -93,7 +116,15 @@ def rule_gate_sets(ctx, cfg='prod-all', group='bbs', only=None):
         if body.path not in table:
             raise AnchorMissing('gate sets of %s are not tabled' % body.path)
         tab = table[body.path]
-        now = gate_sets(ctx, cfg, body.path, with_question=True)
+        now3 = gate_sets(ctx, cfg, body.path, with_question=True, with_expr=True)
+        expressible = {}
+        diseq = set()
+        for q_, s_, e_ in now3:
+            if e_ == 'diseq':
+                diseq.add((q_, s_))
+                e_ = False
+            expressible[(q_, s_)] = expressible.get((q_, s_), True) and e_
+        now = {(q_, s_) for q_, s_, e_ in now3}
         qtab = questions.get(body.path, [])
         # the same test (operator / callee) on fewer inputs than tabled is the tabled question asked with a more precise dependence
         # (the dependence of a value on the inputs is an over-approximation whose precision moves with the form of the code)
@@ -101,7 +132,12 @@ def rule_gate_sets(ctx, cfg='prod-all', group='bbs', only=None):
         # list instead of a local counter): a set that is tabled once its position-typed members (usize, [usize]) are taken out is the tabled test
         def selector(name):
             k = body.param_index(name)
-            return k is not None and body.local_ty(k).replace('&mut ', '').lstrip('&').strip() in ('usize', '[usize]', 'std::vec::Vec<usize>')
+            if k is None:
+                return False
+            ty = body.local_ty(k).replace('&mut ', '').lstrip('&').strip()
+            if ty.startswith('std::option::Option<') and ty.endswith('>'):
+                ty = ty[len('std::option::Option<'):-1].replace('&mut ', '').lstrip('&').strip()
+            return ty in ('usize', '[usize]', 'std::vec::Vec<usize>')
 
         def known(q, s):
             return s in tab or _is_union(s, tab) or any(q == q2 and s <= s2 for q2, s2 in qtab)
@@ -115,7 +151,14 @@ def rule_gate_sets(ctx, cfg='prod-all', group='bbs', only=None):
             # generators made for n) does not
             import rf_accept
             return all(selector(x) for x in s) and body.path in rf_accept.load_table()
-        new = sorted({tuple(sorted(s)) for q, s in now if not known(q, s) and not known_modulo_positions(q, s) and not counts_only(s)})
+        new = {tuple(sorted(s)) for q, s in now if not known(q, s) and not known_modulo_positions(q, s)
+               and not (counts_only(s) and expressible.get((q, s), False))}
+        # a refusal on *equality* of counts / positions (`if i == L { Err }`): invisible to the region rule, and its inputs are usually a
+        # combination that is tested anyway - so the test itself has to be a tabled one
+        for (q, s) in diseq:
+            if all(selector(x) for x in s) and not any(q == q2 and s <= s2 for q2, s2 in qtab):
+                new.add(tuple(sorted(s)) + ('(refused when equal)',))
+        new = sorted(new)
         new = [list(x) for x in new]
         now = {s for q, s in now}
         n += 1
